@@ -8,6 +8,19 @@ import RefurbVerif.Generated.Catalogue
 import RefurbVerif.Wire.Basic
 import RefurbVerif.Wire.Settings
 import RefurbVerif.Wire.Report
+import RefurbVerif.Wire.Paths
+import RefurbVerif.Wire.Noqa
+import RefurbVerif.Wire.Gen
+import RefurbVerif.Wire.Loader
+import RefurbVerif.Wire.Lifecycle
+import RefurbVerif.Wire.Gates
+import RefurbVerif.Wire.Tree
+import RefurbVerif.Wire.Pipeline
+import RefurbVerif.Wire.Equiv
+import RefurbVerif.Wire.Stringify
+import RefurbVerif.Wire.Types
+import RefurbVerif.Wire.Pos
+import RefurbVerif.Wire.Checks
 
 open Lean RefurbVerif
 
@@ -25,7 +38,8 @@ def handle (j : Json) : Json :=
   match getStr j "verb" with
   | "explain" => handleExplain j
   | v =>
-    match [Wire.handleSettings, Wire.handleReport].findSome? (fun h => h v j) with
+    match [Wire.handleSettings, Wire.handleReport,
+        Wire.handlePaths, Wire.handleNoqa, Wire.handleGen, Wire.handleLoader, Wire.handleLifecycle, Wire.handleGates, Wire.handleTree, Wire.handlePipeline, Wire.handleEquiv, Wire.handleStringify, Wire.handleTypes, Wire.handlePos, Wire.handleChecks].findSome? (fun h => h v j) with
     | some r => r
     | none => Json.mkObj [("error", s!"unknown verb {v}")]
 
